@@ -46,6 +46,20 @@ def generate(rng, n, tier):
         yield {"seed": rng.randrange(10 ** 9), "dbs": [rng.randrange(10 ** 6) % 40 for _ in range(3)]}
 
 
+def nval(v):
+    """REAL results up to what re-association of + and * may change in IEEE arithmetic: the sign of a zero and the
+    last digits (the statement and its reference group a*(b*c) / a+(b+c) differently by documented design)"""
+    if isinstance(v, float):
+        if v == 0:
+            return 0.0
+        return float("%.11g" % v)
+    return v
+
+
+def nrows(rows):
+    return [tuple(nval(v) for v in r) for r in rows]
+
+
 def canon(rows):
     return sorted(rows, key=repr)
 
@@ -147,6 +161,7 @@ def examine(case):
                                      "what": "SQLite rejects %s (%s) | reference %s\n%s" % (sql, err, ref, src)})
                 return res
             bad = None
+            got, want = nrows(got), nrows(want)
             if canon(got) != canon(want):
                 bad = "different rows"
             elif order_idx and [tuple(r[i] for i in order_idx) for r in got] != [tuple(r[i] for i in order_idx) for r in want]:
